@@ -6,10 +6,13 @@
    LEVEL: all theorems are at TOKEN level (pp_module : module_ast -> list token).
    The byte layout ppb_module and the lexer are tied by execution on every generated
    case (lex (ppb_module a) = Some (pp_module a)), not by a theorem.
-   "Two runs give identical files" and "independent of the file order" are facts about
-   a C process; they are observed by the check, not stated here. *)
-From Coq Require Import List Bool.
-From A1 Require Import Fix.Printer Fix.PrinterProofs.
+   "Two runs give identical files" is a fact about a C process; it is observed by the
+   check, not stated here.  "Independent of the file order" has one modelled ingredient:
+   the rule that decides which per-type names get the module prefix (Fix/NameClash.v,
+   mirrors asn1f_check_duplicate / asn1c_make_identifier; theorems C12_clash_* below, tied
+   to the C by the file names generated under every permutation of the file list). *)
+From Coq Require Import List Bool Permutation.
+From A1 Require Import Fix.Printer Fix.PrinterProofs Fix.NameClash Fix.NameClashProofs.
 Import ListNotations.
 
 (* the reference parser inverts the printer on every well-formed module of the algebra
@@ -53,3 +56,37 @@ Theorem C12_example : wf_module ex_module = true /\ parse (pp_module ex_module) 
                       /\ lex (ppb_module ex_module) = Some (pp_module ex_module).
 Proof. exact (conj ex_module_wf (conj ex_module_roundtrip ex_module_lex)). Qed.
 Print Assumptions C12_example.
+
+(* --- naming of the per-type output of a module set (Fix/NameClash.v) ----------------- *)
+
+(* the C's pairwise scan (each expression against the expressions before it, both marked
+   on a clash, FATAL on the same identifier twice in one module) computes the symmetric
+   specification: marked iff the identifier occurs anywhere in a module of another name *)
+Theorem C12_clash_scan_is_spec : forall ms,
+  cnames_c ms = if has_dup (flat ms) then None else Some (map (cname ms) (flat ms)).
+Proof. exact cnames_c_spec. Qed.
+Print Assumptions C12_clash_scan_is_spec.
+
+(* acceptance, the C name of every expression, and the multiset of C names are invariant
+   under permutation of the module list (= of the files on the command line) *)
+Theorem C12_clash_names_order_independent : forall ms ms', Permutation ms ms' ->
+  match cnames_c ms, cnames_c ms' with
+  | None, None => True
+  | Some l, Some l' => Permutation l l' /\ forall e, cname ms e = cname ms' e
+  | _, _ => False
+  end.
+Proof. exact names_order_independent. Qed.
+Print Assumptions C12_clash_names_order_independent.
+
+(* the rule "the expression seen first keeps the short name" is order dependent *)
+Theorem C12_clash_first_keeps_name_refuted :
+  exists ms ms' n, Permutation ms ms' /\ In n (cnames_first ms) /\ ~ In n (cnames_first ms').
+Proof. exact first_keeps_name_refuted. Qed.
+Print Assumptions C12_clash_first_keeps_name_refuted.
+
+(* non-vacuity: two modules defining Info, both orders, both get the prefix *)
+Theorem C12_clash_example :
+  cnames_c ex_ab = Some ["ModA_Info"; "UseA"; "ModB_Info"]%str /\
+  cnames_c ex_ba = Some ["ModB_Info"; "ModA_Info"; "UseA"]%str.
+Proof. exact ex_symmetric. Qed.
+Print Assumptions C12_clash_example.
